@@ -35,7 +35,7 @@ ASSUMPTIONS = ['built-in rules (imp-is-pattern, prop-1/-2, mp) are stated over t
                'shipped benchmarks that use element/set variables, $d, #Substitution or obfuscated typecodes are outside the documented fragment: translated and counted, failures reported only']
 FLOORS = {'quick': {'databases': 200, 'translations': 600, 'translations_checked_by_rust_checker': 400, 'db_with:uses_nary_constructor': 50, 'db_with:uses_notation': 50,
                     'db_with:uses_rule_with_hyps': 50, 'db_with:uses_prop1': 50, 'db_with:uses_prop2': 50, 'db_with:uses_mp': 50,
-                    'proofs_with_Z_reuse': 100, 'targets_with_2plus_metavars': 30, 'shipped_benchmarks_translated': 5, 'claim_images_compared': 400,
+                    'proofs_with_Z_reuse': 100, 'targets_with_2plus_metavars': 30, 'shipped_benchmarks_translated': 4, 'claim_images_compared': 400,
                     'axiom_images_compared': 400, 'layout_triples_compared': 200}}
 FLOORS['thorough'] = dict(FLOORS['quick'], databases=2500, translations=7500)
 
